@@ -514,7 +514,9 @@ func (x *Exec) inlinable(fn *ssa.Function, depth int) bool {
 func (x *Exec) inlineCall(fr *Frame, st *State, reach string, callee *ssa.Function, args []Val, clo []Val, rt types.Type) Val {
 	x.n++
 	tag := fmt.Sprintf("%s.%s%d", fr.tag, callee.Name(), x.n)
+	x.inlineDepth++
 	sub := x.runBody(callee, args, clo, st, reach, false, nil, fr.depth+1, tag)
+	x.inlineDepth--
 	if len(sub.rets) == 0 {
 		// callee never returns (always panics)
 		x.assume(reach, "false")
@@ -556,13 +558,17 @@ func (x *Exec) applyContract(fr *Frame, st *State, reach string, con *Contract, 
 	pre := st.clone()
 	pnames := paramNamesOf(callee, sig)
 	if callee == nil && recvT != nil {
-		// interface method: receiver named "self" unless the contract says otherwise
-		pnames = append([]string{"self"}, pnames...)
+		// interface method: receiver named "self"
+		pnames = []string{"self"}
+		for i := 0; i < sig.Params().Len(); i++ {
+			pnames = append(pnames, sig.Params().At(i).Name())
+		}
 	}
 	c := x.newCtx(st, pre, con.Pkg, reach, fr)
 	if callee == nil && recvT != nil {
 		// bind receiver with the interface type
 		c.env["self"] = envEntry{args[0], recvT}
+		sig = types.NewSignatureType(nil, nil, nil, sig.Params(), sig.Results(), sig.Variadic())
 		x.bindSig(c, sig, pnames[1:], args[1:], con, callee, nil)
 	} else {
 		x.bindSig(c, sig, pnames, args, con, callee, nil)
@@ -753,8 +759,8 @@ func (x *Exec) appendBuiltin(fr *Frame, st *State, reach string, cc *ssa.CallCom
 		row := x.fresh("aprow", "(Array Int "+c.sort+")")
 		// elements: [0,len) from old (relative to result off), [len,newLen) from add
 		el := x.elFn(c.sort)
-		x.emit(fmt.Sprintf("(assert (forall ((i Int)) (! (=> (and (<= 0 i) (< i %s)) (= (%s %s %s i) (%s %s %s i))) :pattern ((%s %s %s i)))))",
-			s.Len, el, row, res.Off, el, oldRow, s.Off, el, row, res.Off))
+		x.emit(fmt.Sprintf("(assert (forall ((i Int)) (! (=> (and (<= 0 i) (< i %s)) (= (%s %s %s i) (%s %s %s i))) :pattern ((%s %s %s i)) :pattern ((%s %s %s i)))))",
+			s.Len, el, row, res.Off, el, oldRow, s.Off, el, row, res.Off, el, oldRow, s.Off))
 		x.emit(fmt.Sprintf("(assert (forall ((i Int)) (! (=> (and (<= 0 i) (< i %s)) (= (%s %s %s (+ %s i)) (%s %s %s i))) :pattern ((%s %s %s i)))))",
 			add.Len, el, row, res.Off, s.Len, el, addRow, add.Off, el, addRow, add.Off))
 		x.emit(fmt.Sprintf("(assert (forall ((i Int)) (! (=> (and (<= %s i) (< i %s)) (= (%s %s %s i) (%s %s %s (- i %s)))) :pattern ((%s %s %s i)))))",
